@@ -54,7 +54,7 @@ def run_variant(job):
     dt = var.get("dt", 0.25)
     start = var.get("start", 0.0)
     omega0 = 0.7
-    ncell = 2 * n_steps + 4
+    ncell = 2 * n_steps + 6 + (k if k != KNONE else 0) + (a if a not in (ANONE, AINF) else 0)
     log = []
     if var.get("bath") == "customcorr":
         # the library's own CustomCorrelations (2D quadrature of a user correlation function) with a
@@ -135,6 +135,8 @@ def run_variant(job):
                                          progress_type="silent")
             info["pt_len"] = len(ptens)
     except Exception as ex:  # pylint: disable=broad-except
+        if "probe lattice exceeded" in str(ex):
+            raise          # a limit of the probe, not a verdict about the code: machinery error
         return {"mismatch": [{"what": "exception", "detail": "%s: %s" % (type(ex).__name__, ex)}],
                 "info": info}
 
@@ -213,7 +215,8 @@ def run_mf_pair(job):
         systems, baths, rhos, exps, rots = [], [], [], [], []
         for j, case in enumerate((ca, cb)):
             d = len(case["o"])
-            weights = probes.probe_weights(seed + 101 * j, 2 * n_steps + 4)
+            weights = probes.probe_weights(seed + 101 * j, 2 * n_steps + 6 + (k if k != KNONE else 0)
+                                           + (a if a not in (ANONE, AINF) else 0))
             sd = probes.make_probe_sd(weights, dt)
             rot = probes.haar_unitary(d, seed, "mfpair", j) if var.get("rot") else np.eye(d, dtype=complex)
             rho_eig = probes.generic_rho(d, seed + j)
